@@ -57,6 +57,15 @@ def kosambi [HasTanh α] (d : α) : α := half * HasTanh.tanh (2 * d)
 /-- KosambiMapFunction.invmapfn: `0.5 * arctanh(2.0 * r)` -/
 def invKosambi [HasArtanh α] (r : α) : α := half * HasArtanh.artanh (2 * r)
 
+/-! the same four expressions with every inexact operation followed by a rounding `rnd` (multiplication by
+    `2.0` and `0.5` is exact in binary floating point; `rnd = id` gives the exact functions back).  Used in
+    `Lemmas/MapFnRound` to state what survives ANY monotone rounding. -/
+
+def haldaneR (rnd : α → α) [HasExp α] (d : α) : α := half * rnd (1 - rnd (HasExp.exp (-(2 * d))))
+def invHaldaneR (rnd : α → α) [HasLog α] (r : α) : α := -(half * rnd (HasLog.log (rnd (1 - 2 * r))))
+def kosambiR (rnd : α → α) [HasTanh α] (d : α) : α := half * rnd (HasTanh.tanh (2 * d))
+def invKosambiR (rnd : α → α) [HasArtanh α] (r : α) : α := half * rnd (HasArtanh.artanh (2 * r))
+
 /-- a map function applied to a float that may be +∞ (`exp(-∞) = 0`, `tanh(∞) = 1` ⇒ one half) or NaN -/
 def mapD (f : α → α) : GDist α → GDist α
   | .fin d => .fin (f d)
@@ -95,6 +104,10 @@ def MapKind.kappa : MapKind → Nat
 def MapKind.fn [HasExp α] [HasTanh α] : MapKind → α → α
   | .haldane => GMap.haldane
   | .kosambi => GMap.kosambi
+
+def MapKind.fnR [HasExp α] [HasTanh α] (rnd : α → α) : MapKind → α → α
+  | .haldane => GMap.haldaneR rnd
+  | .kosambi => GMap.kosambiR rnd
 
 def MapKind.inv [HasLog α] [HasArtanh α] : MapKind → α → GDist α
   | .haldane => GMap.invHaldaneD
@@ -206,6 +219,18 @@ structure Row (α β : Type) where
   gen : α
   tag : β
   deriving Repr, BEq, DecidableEq
+
+/-- the columns `ExtendedGeneticMap` carries besides (chromosome, physical, genetic position): `vrnt_stop`,
+    `vrnt_name`, `vrnt_fncode` (the last two may be `None` for the whole map) -/
+structure ExtCols where
+  stop : Int
+  name : Option String
+  fncode : Option String
+  deriving Repr, BEq, DecidableEq
+
+/-- a marker of a `StandardGeneticMap` / of an `ExtendedGeneticMap` -/
+abbrev StdRow (α : Type) := Row α Unit
+abbrev ExtRow (α : Type) := Row α ExtCols
 
 section map
 variable {α β : Type} [LT α] [DecidableLT α]
@@ -393,25 +418,47 @@ rows the spline was last built from. -/
 section object
 variable {α β : Type} [Add α] [Sub α] [Mul α] [Div α] [LT α] [DecidableLT α]
 
+/-- group metadata: (vrnt_chrgrp_name, stix, spix, len) per entry -/
+abbrev Meta := List (Int × Nat × Nat × Nat)
+
+/-- exceptions numpy raises when the metadata does not fit the arrays -/
+inductive Err where
+  | index        -- IndexError
+  | value        -- ValueError (operands / assignment cannot be broadcast)
+  deriving Repr, DecidableEq
+
 structure MapObj (α β : Type) where
   /-- stored arrays (vrnt_chrgrp, vrnt_phypos, vrnt_genpos and the riding columns) -/
   rows : List (Row α β)
-  /-- group metadata present (`is_grouped()`) -/
-  grouped : Bool
+  /-- the four metadata arrays AS STORED (`none` = all four `None`); nothing forces them to describe `rows` -/
+  gmeta : Option Meta
   /-- rows the spline was built from; `none` = no spline -/
   spline : Option (List (Row α β))
+
+/-- `is_grouped()`: the four metadata arrays are present (their content is not looked at) -/
+def MapObj.grouped (m : MapObj α β) : Bool := m.gmeta.isSome
 
 /-- `__init__(..., auto_group, auto_build_spline)` -/
 def MapObj.new (rows : List (Row α β)) (autoGroup : Bool := true) (autoSpline : Bool := true) : MapObj α β :=
   let r := if autoGroup then construct rows else rows
-  { rows := r, grouped := autoGroup, spline := if autoSpline then some r else none }
+  { rows := r, gmeta := if autoGroup then some (groupMeta r) else none,
+    spline := if autoSpline then some r else none }
 
-/-- `group()` -/
-def MapObj.group (m : MapObj α β) : MapObj α β := { m with rows := construct m.rows, grouped := true }
+/-- `group()`: sort, then recompute the metadata from the sorted label array -/
+def MapObj.group (m : MapObj α β) : MapObj α β :=
+  { m with rows := construct m.rows, gmeta := some (groupMeta (construct m.rows)) }
+
+/-- `ungroup()` -/
+def MapObj.ungroup (m : MapObj α β) : MapObj α β := { m with gmeta := none }
+
+/-- `reorder(indices)`: fancy-index every array, then reset the four metadata arrays to `None` -/
+def MapObj.reorder (m : MapObj α β) (idx : List Nat) : MapObj α β :=
+  { m with rows := Np.take idx m.rows, gmeta := none }
 
 /-- re-sort and re-group only "if GeneticMap was previously grouped" -/
 def MapObj.regroup (m : MapObj α β) (r : List (Row α β)) : MapObj α β :=
-  if m.grouped then { m with rows := construct r } else { m with rows := r }
+  if m.grouped then { m with rows := construct r, gmeta := some (groupMeta (construct r)) }
+  else { m with rows := r }
 
 /-- `remove(indices)`: `numpy.delete` on every array -/
 def MapObj.remove (m : MapObj α β) (idx : List Nat) : MapObj α β := m.regroup (Np.delete idx m.rows)
@@ -426,7 +473,8 @@ def MapObj.selectMask (m : MapObj α β) (mask : List Bool) : MapObj α β := m.
 def MapObj.ensureGrouped (m : MapObj α β) : MapObj α β := if m.grouped then m else m.group
 
 /-- `remove_discrepancies()`: ONE pass — drop every marker whose genetic position is below that of its
-    predecessor in the array as it stands -/
+    predecessor in the array as it stands.  (Closed form for objects whose metadata describes their arrays,
+    `MapObj.MetaOk`; the literal loop over the stored metadata is `removeDiscrepanciesLit` below.) -/
 def MapObj.removeDiscrepancies (m : MapObj α β) : MapObj α β :=
   let g := m.ensureGrouped
   let mask := congruence g.rows
@@ -436,7 +484,7 @@ def MapObj.removeDiscrepancies (m : MapObj α β) : MapObj α β :=
 def MapObj.buildSpline (m : MapObj α β) : MapObj α β := { m with spline := some m.rows }
 
 /-- `interp_genpos`: `none` = "interpolation spline not built" (ValueError / RuntimeError); the
-    `is_congruent()` warning check groups the map as a side effect -/
+    `is_congruent()` warning check groups the map as a side effect.  (Closed form, see `interpGenposLit`.) -/
 def MapObj.interpGenpos (m : MapObj α β) (qchr : List Int) (qphy : List α) :
     Option (List (Option α)) × MapObj α β :=
   match m.spline with
@@ -448,6 +496,117 @@ def rdStep (rows : List (Row α β)) : List (Row α β) :=
   let s := construct rows
   let mask := congruence s
   if mask.all id then s else construct (Np.compress mask s)
+
+/-! #### the loops over the STORED metadata, literally
+
+`congruence()` does not look at the label array: it walks the stored `(stix, spix)` pairs.
+```
+out = numpy.zeros(len(self._vrnt_phypos), dtype='bool')
+for st,sp in zip(self._vrnt_chrgrp_stix, self._vrnt_chrgrp_spix):
+    out[st] = True
+    out[st+1:sp] = self._vrnt_genpos[st:sp-1] <= self._vrnt_genpos[st+1:sp]
+```
+With `n` markers: `out[st]` raises IndexError when `n ≤ st`; for `st < n < sp` the two operands of `<=` have
+lengths `n - st` and `n - st - 1` and the target slice `n - st - 1`: numpy broadcasts only when `n - st = 1`
+(empty result), otherwise ValueError.  For `sp ≤ n` the loop body never fails — whatever the labels are. -/
+
+/-- what one iteration writes: `out[st] = True`, `out[i] = genpos[i-1] <= genpos[i]` for `st < i < sp` -/
+def congrWriteCell (rows : List (Row α β)) (st sp i : Nat) (old : Bool) : Bool :=
+  if i = st then true
+  else if st < i ∧ i < sp then
+    (match rows[i - 1]?, rows[i]? with
+     | some p, some r => !decide (r.gen < p.gen)
+     | _, _ => old)
+  else old
+
+def congrWrite (rows : List (Row α β)) (out : List Bool) (st sp : Nat) : List Bool :=
+  out.zipIdx.map fun oi => congrWriteCell rows st sp oi.2 oi.1
+
+/-- one iteration for the run `[st, sp)` -/
+def congrRun (rows : List (Row α β)) (out : List Bool) (st sp : Nat) : Except Err (List Bool) :=
+  let n := rows.length
+  if n ≤ st then .error .index
+  else if n < sp ∧ 2 ≤ n - st then .error .value
+  else .ok (congrWrite rows out st sp)
+
+/-- the whole loop -/
+def congruenceLit (rows : List (Row α β)) : Meta → List Bool → Except Err (List Bool)
+  | [], out => .ok out
+  | r :: rest, out =>
+    match congrRun rows out r.2.1 r.2.2.1 with
+    | .ok out' => congruenceLit rows rest out'
+    | .error e => .error e
+
+/-- `congruence()` on the object: group first if no metadata is stored, then the loop -/
+def MapObj.congruenceLit (m : MapObj α β) : Except Err (List Bool × MapObj α β) :=
+  let g := m.ensureGrouped
+  match GMap.congruenceLit g.rows (g.gmeta.getD []) (List.replicate g.rows.length false) with
+  | .ok c => .ok (c, g)
+  | .error e => .error e
+
+/-- `remove_discrepancies()` as written -/
+def MapObj.removeDiscrepanciesLit (m : MapObj α β) : Except Err (MapObj α β) :=
+  match m.congruenceLit with
+  | .ok (mask, g) => .ok (if mask.all id then g else g.selectMask mask)
+  | .error e => .error e
+
+/-- `interp_genpos()` as written: `has_spline()`, then `is_congruent()` (which may raise), then the loop -/
+def MapObj.interpGenposLit (m : MapObj α β) (qchr : List Int) (qphy : List α) :
+    Except Err (Option (List (Option α)) × MapObj α β) :=
+  match m.spline with
+  | none => .ok (none, m)
+  | some k =>
+    match m.congruenceLit with
+    | .ok (_, g) => .ok (some (GMap.interpGenpos k qchr qphy), g)
+    | .error e => .error e
+
+/-- rows of the map `interp_gmap` creates; `none` when a position is NaN (chromosome absent from the
+    spline): such a map is outside this model -/
+def derivedRows : List Int → List α → List β → List (Option α) → Option (List (Row α β))
+  | c :: cs, x :: xs, t :: ts, g :: gs =>
+    match g with
+    | none => none
+    | some y => (derivedRows cs xs ts gs).map (({ chr := c, phy := x, gen := y, tag := t } : Row α β) :: ·)
+  | _, _, _, _ => some []
+
+/-- `interp_gmap()` AS IS: the new object gets the interpolated positions, a copy of the spline — and a copy
+    of the PARENT's four metadata arrays, which describe the parent's arrays, not its own.
+    Result: (derived map, parent after the call); inner `none` = no spline / NaN positions. -/
+def MapObj.interpGmap (m : MapObj α β) (qchr : List Int) (qphy : List α) (tags : List β) :
+    Except Err (Option (MapObj α β × MapObj α β)) :=
+  match m.interpGenposLit qchr qphy with
+  | .error e => .error e
+  | .ok (none, _) => .ok none
+  | .ok (some gen, m') =>
+    match derivedRows qchr qphy tags gen with
+    | none => .ok none
+    | some rows => .ok (some ({ rows := rows, gmeta := m'.gmeta, spline := m'.spline }, m'))
+
+/-- `interp_gmap()` with the proposed repair: the new object is left ungrouped (the constructor call with
+    `auto_group = False` already set the four arrays to `None`) -/
+def MapObj.interpGmapFixed (m : MapObj α β) (qchr : List Int) (qphy : List α) (tags : List β) :
+    Except Err (Option (MapObj α β × MapObj α β)) :=
+  match m.interpGmap qchr qphy tags with
+  | .ok (some (d, m')) => .ok (some ({ d with gmeta := none }, m'))
+  | r => r
+
+/-- re-assignment of `vrnt_phypos` / `vrnt_genpos` through the property setters: the arrays change, the
+    metadata and the spline stay -/
+def MapObj.assign (m : MapObj α β) (rows : List (Row α β)) : MapObj α β := { m with rows := rows }
+
+/-- the exception a call ends in (`none` = it returns) -/
+def errOf {γ : Type} : Except Err γ → Option Err
+  | .error e => some e
+  | .ok _ => none
+
+/-- the object a call of `interp_gmap` returns (`none` = it raised, or is outside the model) -/
+def derivedOf (r : Except Err (Option (MapObj α β × MapObj α β))) : Option (MapObj α β) :=
+  match r with
+  | .ok (some (d, _)) => some d
+  | _ => none
+
+/-- the stored metadata describes the stored arrays (what every method except `interp_gmap` maintains) -/
+def MapObj.MetaOk (m : MapObj α β) : Prop := ∀ mt, m.gmeta = some mt → mt = groupMeta m.rows
 
 end object
 
